@@ -111,9 +111,16 @@ fn c06(rng: &mut Rng, tier: &str, idx: usize) -> Case {
         let (big_n, big_k, n) = *rng.pick(&[(4000u32, 2000u32, 2000u32), (6000, 3000, 3000), (5000, 3500, 2500), (6000, 2000, 3000)]);
         let lo = (n + big_k).saturating_sub(big_n).max(1);
         let hi = big_k.min(n);
-        let levels = [-3.0f64, -30.0, -300.0, -690.0, -706.0, -709.0, -720.0, -738.0, -743.0, -745.0, -750.0, -800.0];
-        for _ in 0..if tier == "quick" { 2 } else { 3 } {
-            let target = *rng.pick(&levels);
+        // every case: the whole subnormal band (the first term has 50 ... 1 significant bits), the
+        // two thresholds, and two other magnitudes
+        let mut levels = vec![-706.0f64, -709.0, -725.0, -735.0, -738.0, -741.0, -743.0, -744.0, -745.0];
+        levels.push(*rng.pick(&[-3.0f64, -30.0, -300.0, -690.0]));
+        levels.push(*rng.pick(&[-750.0f64, -800.0, -1200.0]));
+        if tier == "quick" {
+            // keep the quick tier short: the deep-subnormal levels always, a sample of the rest
+            levels = vec![-738.0, -741.0, -743.0, -744.0, *rng.pick(&[-706.0f64, -709.0, -725.0, -735.0, -745.0, -30.0, -800.0])];
+        }
+        for target in levels {
             // left flank of the mode: the first k (ascending) whose log-pmf reaches the target
             let mut pick = None;
             for k in lo..=hi {
@@ -122,7 +129,7 @@ fn c06(rng: &mut Rng, tier: &str, idx: usize) -> Case {
                     break;
                 }
             }
-            let k = (pick.unwrap_or(lo) + rng.below(2) as u32).clamp(lo, hi);
+            let k = pick.unwrap_or(lo).clamp(lo, hi);
             c.op(format!("enrichbig {big_n} {big_k} {n} {k}"));
             c.stat("enrich_ops_long_tail", 1);
             c.stat(&format!("first_term_log_level_{}", -target as i64), 1);
